@@ -225,3 +225,24 @@ V('oks-diff', ['C14', 'C15'], 'yalafi/shell/utils.py',
   "length = abs(charmap[end]) - abs(charmap[beg]) + 1", "length = abs(charmap[end] - charmap[beg]) + 1", 'OKS')
 V('ml6-order', ['C12'], 'yalafi/packages/babel.py',
   "get_language_token(parser.global_latex_options + options)", "get_language_token(options + parser.global_latex_options)", 'ML6')
+
+# ---------------------------------------------------------------- PD6
+V('pd6-verb-anchor', ['C02'], S,
+  "return defs.VerbatimToken(start_arg, latex[start_arg:self.pos-1])",
+  "return defs.VerbatimToken(start, latex[start_arg:self.pos-1])", 'PD6')
+V('pd6-no-advance', ['C07', 'C02'], S,
+  "        self.pos += 1\n        return defs.TextToken(start, c)", "        return defs.TextToken(start, c)", 'PD6')
+V('pd6-comment-find', ['C07'], S,
+  "        self.pos = next((i for i in range(start + 1, self.max_pos)\n                                if latex[i] == '\\n'), self.max_pos)\n        next_non_space",
+  "        self.pos = latex.find('\\n', start + 1)\n        next_non_space", 'PD6')
+V('pd6-space-slice', ['C02'], S,
+  "        space = latex[start:self.pos]", "        space = latex[start + 1:self.pos]", 'PD6')
+V('pd6-neutral-rename', ['C02', 'C07'], S,
+  "        space = latex[start:self.pos]\n        if space.count('\\n') < 2:\n            return defs.SpaceToken(start, space)\n        return defs.ParagraphToken(start, space)",
+  "        blank = latex[start:self.pos]\n        if blank.count('\\n') < 2:\n            return defs.SpaceToken(start, blank)\n        return defs.ParagraphToken(start, blank)", [])
+V('pd6-verbatim-pos', ['C02'], S,
+  "return defs.VerbatimToken(pos, latex[pos:end], environ=True)",
+  "return defs.VerbatimToken(pos - 1, latex[pos:end], environ=True)", 'PD6')
+V('pd4-partition', ['C02'], P,
+  "                    pos = txt.find('\\n') + 1\n                    t2.txt = txt[pos:]\n                    if not t2.pos_fix:\n                        t2.pos += pos",
+  "                    pos = txt.find('\\n')\n                    t2.txt = txt[pos + 1:]\n                    if not t2.pos_fix:\n                        t2.pos += pos", 'PD4')
